@@ -38,7 +38,7 @@ class Subscription(Referenceable):
             # subscriber see events in sorted order. We bypass the bounded
             # queue for this.
             events = list(self.logger.get_buffered_events())
-            events.sort(key=lambda a: a['num'])
+            events.sort(key=lambda a: a['num'] if isinstance(a['num'], int) else -1)
             for e in events:
                 self.observer.callRemoteOnly("msg", e)
 
@@ -202,6 +202,9 @@ class LogPublisher(Referenceable):
                 basename = six.ensure_str(self.trim(fn, ".bz2", ".flog"))
                 if basename > since:
                     fullname = six.ensure_str(os.path.join(basedir, fn))
+                    if os.path.islink(fullname):
+                        # only files that really are in the log directory
+                        continue
                     yield (basename, fullname)
 
     def get_incident_trigger(self, abs_fn):
